@@ -584,6 +584,42 @@ func readerCase(out *bufio.Writer, k Kind, rep bool, field int32, data []byte, i
 	fmt.Fprintf(out, "reader\t%s\t%d\t%d\tx%s\t%s\t%s\t%s\n", k, b2i(rep), field, hex.EncodeToString(data), valsString(init), res, refReader(k, rep, field, data, init))
 }
 
+// nestedReaderCase: the same reader called inside the callback of Message / PresentMessage / RepeatedMessage on a
+// payload that holds `data`; an error raised inside the callback must survive the return to the outer cursor.
+func nestedReaderCase(out *bufio.Writer, k Kind, rep bool, field int32, data []byte, init []*Val, wrap int) {
+	outer := protowire.AppendVarint(nil, 9<<3|2)
+	outer = protowire.AppendVarint(outer, uint64(len(data)))
+	outer = append(outer, data...)
+	outer = append(outer, 0x38, 0x01)
+	res := ""
+	func() {
+		defer func() {
+			if r := recover(); r != nil {
+				res = "PANIC"
+			}
+		}()
+		dec := picobuf.NewDecoder(append([]byte{}, outer...))
+		dec.VerifInit()
+		cur := init
+		cb := func(c *picobuf.Decoder) { cur = callReader(c, k, rep, field, cur) }
+		switch wrap {
+		case 0:
+			dec.Message(9, cb)
+		case 1:
+			dec.PresentMessage(9, cb)
+		default:
+			dec.RepeatedMessage(9, cb)
+		}
+		pf, _, rem := dec.VerifState()
+		es := "-"
+		if ef, em, ok := dec.VerifErrField(); ok {
+			es = fmt.Sprintf("%d:%s", ef, errClassOf(em))
+		}
+		res = fmt.Sprintf("pf=%d rem=%d err=%s val=%s", pf, rem, es, valsString(cur))
+	}()
+	fmt.Fprintf(out, "nreader\t%s\t%d\t%d\tx%s\t%s\t%d\t%s\n", k, b2i(rep), field, hex.EncodeToString(outer), valsString(init), wrap, res)
+}
+
 func init() {
 	register("writers", func(args []string, out *bufio.Writer) error {
 		seed, _ := strconv.ParseUint(args[0], 10, 64)
@@ -714,6 +750,9 @@ func init() {
 								init = []*Val{scalarAlphabet(k)[r.intn(len(scalarAlphabet(k)))]}
 							}
 							readerCase(out, k, rep, field, data, init)
+							if pi%3 == 0 || wt == int(wireOfKind(k)) {
+								nestedReaderCase(out, k, rep, field, data, init, (pi+wt)%3)
+							}
 						}
 					}
 				}
